@@ -159,9 +159,11 @@ func (g *frameGen) frameOf(class string, k int) frame {
 		return frame{class: class, data: js(&mocrelay.ClientEventMsg{Event: e})}
 	case "forgedsig":
 		e := signed(1)
-		switch g.r.Intn(4) {
+		switch g.r.Intn(5) {
 		case 0:
 			e.Sig = flipHexBit(e.Sig, g.r.Intn(128))
+		case 4:
+			e.Sig = upperOneHexLetter(e.Sig, g.r.Intn(128)) // same bytes, not lower-case hex
 		case 1:
 			o := g.conc.SignRaw("z", 1, 1, nil, "other")
 			e.Sig = o.Sig
@@ -176,7 +178,9 @@ func (g *frameGen) frameOf(class string, k int) frame {
 		return frame{class: class, data: js(&mocrelay.ClientEventMsg{Event: e})}
 	case "altered":
 		e := signed(1)
-		switch g.r.Intn(4) {
+		switch g.r.Intn(5) {
+		case 4:
+			e.ID = upperOneHexLetter(e.ID, g.r.Intn(64)) // same bytes, not lower-case hex
 		case 0:
 			e.Content += "!"
 		case 1:
@@ -301,7 +305,7 @@ func runGateSession(url string, frames []frame, emitPlan func(int) int, ev *mocr
 	}()
 	for _, f := range frames {
 		if f.class == "pause" {
-			time.Sleep(400 * time.Millisecond) // the session outlives the send timeout
+			time.Sleep(900 * time.Millisecond) // the session outlives the send timeout
 			continue
 		}
 		typ := websocket.MessageText
@@ -532,12 +536,13 @@ func C12(run *core.Run) {
 		distinct.Add(fmt.Sprint("long", i))
 		runSeq(s, 3, r)
 	}
-	// (3) sessions that outlive the send timeout: SendTimeout 150 ms, a 400 ms pause in the middle
+	// (3) sessions that outlive the send timeout: SendTimeout 500 ms, a 900 ms pause in the middle;
+	// the client reads all the time, so the relay has no reason to drop the connection
 	slowRelay := func(h mocrelay.Handler) (*httptest.Server, func()) {
 		opt := mocrelay.NewDefaultRelayOption()
 		opt.RecvRateLimitRate = 1e9
 		opt.RecvRateLimitBurst = 1 << 30
-		opt.SendTimeout = 150 * time.Millisecond
+		opt.SendTimeout = 500 * time.Millisecond
 		opt.PingDuration = []time.Duration{0, time.Minute}[r.Intn(2)]
 		srv := httptest.NewServer(mocrelay.NewRelay(h, opt))
 		return srv, func() { srv.Close() }
@@ -554,6 +559,12 @@ func C12(run *core.Run) {
 			frames = append(frames, g.frameOf(classes[r.Intn(len(classes))], k))
 		}
 		line, problem := runGateSession("", frames, func(n int) int { return 1 }, w.ev, slowRelay)
+		if strings.HasPrefix(problem, "write") {
+			run.Violate("session:connection dropped although the client kept reading (session longer than SendTimeout)",
+				"a session with a 900 ms pause (SendTimeout 500 ms, reader never stalled) was torn down by the relay: "+problem,
+				map[string]any{"frames": len(frames), "problem": problem})
+			continue
+		}
 		if problem != "" {
 			run.Problem("session could not be run: %s", problem)
 			continue
